@@ -26,6 +26,29 @@ import math
 #   match - ofp_match (13-tuple)
 #   counters - hash from name -> count. May be stale
 #   actions - ordered list of ofp_action_*s to apply for matching packets
+def _same_match (a, b):
+  """
+  Strict comparison of two matches
+
+  Address bits below the prefix length are not part of a match, so
+  10.1.2.3/24 and 10.1.2.0/24 are the same match.
+  """
+  if a == b: return True
+  if a.wildcards != b.wildcards: return False
+  for f in ("in_port", "dl_src", "dl_dst", "dl_vlan", "dl_vlan_pcp",
+            "dl_type", "nw_tos", "nw_proto", "tp_src", "tp_dst"):
+    if getattr(a, f) != getattr(b, f): return False
+  for get in ("get_nw_src", "get_nw_dst"):
+    ipa,bitsa = getattr(a, get)()
+    ipb,bitsb = getattr(b, get)()
+    if bitsa != bitsb: return False
+    if (ipa is None) != (ipb is None): return False
+    if ipa is not None:
+      if IPAddr(ipa).get_network(bitsa) != IPAddr(ipb).get_network(bitsb):
+        return False
+  return True
+
+
 class TableEntry (object):
   """
   Models a flow table entry, with a match, actions, and options/flags/counters.
@@ -95,7 +118,8 @@ class TableEntry (object):
     port_matches = (out_port is None) or any(match_a(a) for a in self.actions)
 
     if strict:
-      return port_matches and self.match == match and self.priority == priority
+      return (port_matches and self.priority == priority
+              and _same_match(self.match, match))
     else:
       return port_matches and match.matches_with_wildcards(self.match)
 
